@@ -81,7 +81,7 @@ def run(ctx) -> None:
         nl, ir, orow = kwarg(lc, "node_label"), kwarg(lc, "inputs_row"), kwarg(lc, "outputs_row")
         ok_label = ok_label and nl is not None and ir is not None and orow is not None
         # display name: the definition's short name for extension ops unless qualified names are configured
-        ext = [k for t, k in p.tests if u(t) == f"isinstance({op_txt}, AsExtOp)"]
+        ext = [k for t, k in p.tests if unold(t) == f"isinstance({op_txt}, AsExtOp)"]
         qual = [k for t, k in p.tests if u(t) == "self.config.qualify_op_name"]
         short = bool(ext) and ext[0] and bool(qual) and not qual[0]
         want_nl = f"{op_txt}.op_def().name" if short else f"{op_txt}.name()"
@@ -91,6 +91,11 @@ def run(ctx) -> None:
             ports = f"[str(c0) for c0 in range({nh_}.{cnt}({np_}))]"
             some = [k for t, k in p.tests if unold(t) in (f"len({ports}) <= 0", f"len({ports}) == 0")]
             some = [not k for k in some] + [k for t, k in p.tests if unold(t) in (f"len({ports}) > 0", ports)]
+            if arg is not None and not some:
+                # the choice written as a conditional expression instead of a statement
+                row = f"self._html_ports({ports}, {prefix})"
+                rows_ok[var] = rows_ok[var] and unold(arg) in (f"{row} if {ports} else ''", f"{row} if len({ports}) > 0 else ''", f"'' if len({ports}) == 0 else {row}")
+                continue
             if arg is None or not some:
                 rows_ok[var] = False
                 continue
